@@ -10,6 +10,8 @@ THEOREMS = [
     "Pypika.C02.render_sound",
     "Pypika.C02.render_emb",            # the model's `render` on arithmetic terms is the image of renderTok
     "Pypika.C02.render_sound_model",    # hence render_sound holds of `render`, the function run against /repo
+    "Pypika.Spec.parse_complete", "Pypika.Spec.G_unambiguous",       # the arithmetic grammar has ONE reading per token list
+    "Pypika.C02.every_reading_agrees", "Pypika.C02.parse_renderTok",
     "Pypika.C02.render_cmp", "Pypika.C02.cmp_operands_sound",      # comparison level: whole arithmetic operands, no chaining
     "Pypika.C02.renderB_sound",         # boolean level: NOT / one-operator chains / parentheses, any depth
     "Pypika.C02.render_embB", "Pypika.C02.render_sound_modelB",    # the model's render on criteria = image of renderB
